@@ -3,6 +3,7 @@ package main
 import (
 	"encoding/json"
 	"math/rand"
+	"strings"
 )
 
 func pfOK() pfReply { return pfReply{Kind: "ok"} }
@@ -505,7 +506,37 @@ func init() {
 					pfDefaultAns(&c.Steps[i])
 				}
 			}
-			emit(c)
+			emit(pfHonestSessions(c))
 		}
 	}
+}
+
+// pfHonestSessions keeps the presented sessions of a random case reachable: a session for an upstream with a group
+// rule only ever carries groups the authenticator was asked about under that rule (an honest authenticator answers with
+// a subset of what it was asked, and a session with no confirmed group is never issued). A session naming other groups
+// can only come from a changed configuration, and serving it during a grace period is what the grace period means.
+func pfHonestSessions(c pfCase) pfCase {
+	for i := range c.Steps {
+		s := c.Steps[i].Cookie.Sess
+		if s == nil {
+			continue
+		}
+		for _, u := range c.Cfg.Upstreams {
+			if len(u.Groups) == 0 || (len(u.Groups) == 1 && u.Groups[0] == "*") || !strings.EqualFold(u.From, s.Host) {
+				continue
+			}
+			asked := strings.Split(strings.Join(u.Groups, ","), ",")
+			gs := []string{}
+			for _, g := range asked {
+				if containsStr(s.Groups, g) {
+					gs = append(gs, g)
+				}
+			}
+			if len(gs) == 0 {
+				gs = asked[:1]
+			}
+			s.Groups = gs
+		}
+	}
+	return c
 }
